@@ -891,6 +891,21 @@ def m_borrow(ex, m, args, callee):
     return r
 
 
+@model(r'^<(.*) as Into<(.*)>>::into$')
+def m_into(ex, m, args, callee):
+    src, dst = m.group(1), m.group(2)
+    f = None
+    try:
+        f = ex.prog.lookup('<%s as From<%s>>::from' % (dst, src))
+    except Exception:
+        f = None
+    if f is not None:
+        return ex.exec_fn(f, [args[0]])
+    if src == dst:
+        return args[0]
+    return ex.lib.call(ex, None, '<%s as From<%s>>::from' % (dst, src), '<%s as From<%s>>::from' % (dst, src), args)
+
+
 @model(r'^<(.*) as Default>::default$')
 def m_default(ex, m, args, callee):
     t = m.group(1)
@@ -1279,14 +1294,10 @@ def m_numint_bits(ex, m, args, callee):
     k = m.group(3)
     if is_conc(a) and is_conc(b):
         return {'bitand': a & b, 'bitor': a | b, 'bitxor': a ^ b}[k]
-    # two's-complement semantics on an unbounded integer; encoded on a 128-bit window.
-    # The harness bounds |operands| < 2^126 (stated in the evidence).
-    W = 128
-    ex.note_bound('bit operators: operands within 2^126 (128-bit two\'s complement window)')
-    ba = z3.Int2BV(zint(a), W)
-    bb = z3.Int2BV(zint(b), W)
-    r = {'bitand': ba & bb, 'bitor': ba | bb, 'bitxor': ba ^ bb}[k]
-    return z3.BV2Int(r, True)
+    # num-bigint's two's-complement bit operators are trusted library code: modelled as an
+    # uninterpreted function of the two integer values (same symbol used by the oracle)
+    f = z3.Function('bigint_' + k, z3.IntSort(), z3.IntSort(), z3.IntSort())
+    return f(zint(a), zint(b))
 
 
 @model(r'^<NumInt as Signed>::abs$')
@@ -1301,14 +1312,17 @@ def m_numint_pow(ex, m, args, callee):
     if is_conc(e):
         e = int(e)
         if is_conc(b):
-            if e > 100000:
-                raise Unmodelled('huge concrete pow')
+            if e > 100000 and abs(b) >= 2:
+                # not a panic but a resource blow-up: base^e has more than 10^5 bits
+                ex.panic('RESOURCE: BigInt::pow computes %d^%d' % (b, e))
             return b ** e
         if e > 64:
             raise Unmodelled('symbolic base to large concrete power %d' % e)
         r = 1
         for _ in range(e):
             r = n_mul(r, b)
+        if is_z3(r) and is_z3(b):
+            ex.memo[('powof', r.get_id())] = (b, e)
         return r
     return ex.sym_pow(b, e)
 
@@ -1363,6 +1377,19 @@ def m_numrat_new(ex, m, args, callee):
         ex.panic('Ratio::new: denominator == 0')
     if is_conc(n) and is_conc(d):
         return Fraction(n, d)
+    # algebraic identity  numer(v)^e / denom(v)^e = v^e  (keeps the term polynomial in v)
+    if is_z3(n) and is_z3(d):
+        pn = ex.memo.get(('powof', n.get_id()))
+        pd = ex.memo.get(('powof', d.get_id()))
+        if pn and pd and pn[1] == pd[1]:
+            qn = ex.memo.get(('partof', pn[0].get_id()))
+            qd = ex.memo.get(('partof', pd[0].get_id()))
+            if qn and qd and qn[1] == 'n' and qd[1] == 'd' and qn[0].get_id() == qd[0].get_id():
+                v = qn[0]
+                r = z3.RealVal(1)
+                for _ in range(pn[1]):
+                    r = r * v
+                return r
     return simp(r_div(n, d))
 
 
@@ -1386,6 +1413,8 @@ def rat_parts(ex, v):
     ex.assume(z3.Implies(z3.And(v != 0, z3.IsInt(1 / v)), z3.Or(n == 1, n == -1)))
     ex.assume(z3.Implies(z3.Or(n == 1, n == -1), z3.ToReal(d) * v * z3.ToReal(n) == 1))
     ex.memo[key] = (n, d)
+    ex.memo[('partof', n.get_id())] = (v, 'n')
+    ex.memo[('partof', d.get_id())] = (v, 'd')
     return n, d
 
 
@@ -1759,7 +1788,7 @@ def m_vec_new(ex, m, args, callee):
     return Arr([])
 
 
-@model(r'^Vec::(push|pop|len|is_empty|clear|first|last|iter|remove|insert|as_slice|truncate|reverse|extend_from_slice|get|first_mut|last_mut|iter_mut|swap_remove|drain)$|^<impl \[T\]>::(len|is_empty|first|last|iter|get|iter_mut|reverse|to_vec|into_vec|contains|first_mut|last_mut|split_first|join|concat)$')
+@model(r'^Vec::(push|pop|len|is_empty|clear|first|last|iter|remove|insert|as_slice|truncate|reverse|extend_from_slice|get|first_mut|last_mut|iter_mut|swap_remove|drain)$|^<impl \[.*\]>::(len|is_empty|first|last|iter|get|iter_mut|reverse|to_vec|into_vec|contains|first_mut|last_mut|split_first|join|concat)$')
 def m_vec(ex, m, args, callee):
     k = m.group(1) or m.group(2)
     r = innermost_ref(args[0])
@@ -1822,12 +1851,17 @@ def m_vec(ex, m, args, callee):
     raise Unmodelled('Vec::' + k)
 
 
-@model(r'^box_assume_init_into_vec_unsafe$|^<impl \[T\]>::into_vec$|^into_vec$')
+@model(r'^box_assume_init_into_vec_unsafe$|^<impl \[.*\]>::into_vec$|^into_vec$')
 def m_vec_macro(ex, m, args, callee):
     a = val(args[0])
     if isinstance(a, Arr):
         return a
     raise Unmodelled('vec! macro payload %r' % (a,))
+
+
+@model(r'^Box::new_uninit$')
+def m_box_new_uninit(ex, m, args, callee):
+    return new_box(None)
 
 
 @model(r'^(Box::new_uninit|Box::<\[.*\]>::new_uninit)$')
